@@ -86,8 +86,21 @@ func (w *accWorld) close() {
 }
 
 // baseline restores values, callbacks and the pairing store between words.
+// setOn changes the value from the application side. A panic inside hc (it can happen when a notified connection is
+// closing at that very moment, see DESIGN.md D15) is recorded, not propagated: it is C10's business.
+func (w *accWorld) setOn(v bool) {
+	defer func() {
+		if r := recover(); r != nil {
+			atomic.AddInt64(&appPanics, 1)
+		}
+	}()
+	w.sw.Switch.On.SetValue(v)
+}
+
+var appPanics int64
+
 func (w *accWorld) baseline() error {
-	w.sw.Switch.On.SetValue(false)
+	w.setOn(false)
 	atomic.StoreInt64(&w.cb, 0)
 	for _, e := range w.tr.Entities() {
 		if e.Name != w.accID && e.Name != w.legit.Name {
@@ -267,7 +280,7 @@ func (w *accWorld) doStep(conns map[string]*accConn, st accStep) (J, error) {
 	var r reply
 	switch st.A {
 	case "LocalSet":
-		w.sw.Switch.On.SetValue(!w.sw.Switch.On.GetValue())
+		w.setOn(!w.sw.Switch.On.GetValue())
 		r = reply{http: -1, state: -1, terr: -1, class: "App"}
 	case "Close":
 		cs, err := w.conn(conns, st.C)
@@ -338,6 +351,7 @@ func (w *accWorld) doStep(conns map[string]*accConn, st accStep) (J, error) {
 		r = cs.exchange(ref.BuildRequest("POST", "/pair-verify", ref.CTTLV, body), false)
 		if st.P == "genuine" && r.http == 200 && r.state == 4 && r.terr == 0 {
 			cs.expectEnc = true
+			w.tr.WaitEncrypted(cs.local)
 		}
 	case "PSNoise":
 		cs, err := w.conn(conns, st.C)
@@ -540,6 +554,15 @@ func (w *accWorld) runWord(b Beh, tr *Tracer) error {
 		for _, cs := range conns {
 			cs.c.Close()
 		}
+		// wait until the server has dropped the sessions, so that the next word starts from a quiet server
+		for _, cs := range conns {
+			for i := 0; i < 300; i++ {
+				if s, _ := w.tr.Ctx.Get(cs.local).(hap.Session); s == nil {
+					break
+				}
+				time.Sleep(time.Millisecond)
+			}
+		}
 	}()
 	lines := []J{{"ev": "reset", "case": b.ID, "val": w.val(), "cb": 0, "subs": []string{}, "store": w.storeNames()}}
 	for i, raw := range b.Steps {
@@ -556,7 +579,7 @@ func (w *accWorld) runWord(b Beh, tr *Tracer) error {
 		lines = append(lines, o)
 	}
 	// final phase: the application changes the value, then every connection is probed (the probe is the fence)
-	w.sw.Switch.On.SetValue(!w.sw.Switch.On.GetValue())
+	w.setOn(!w.sw.Switch.On.GetValue())
 	names := make([]string, 0, len(conns))
 	for n := range conns {
 		names = append(names, n)
@@ -581,7 +604,7 @@ func accessFamily(a *Args) error {
 	if err != nil {
 		return err
 	}
-	workers := 8
+	workers := 24 // most of a word's time is spent in dnssd's one-second re-announcement after a pairing change
 	if len(behs) < workers {
 		workers = 1
 	}
@@ -618,6 +641,7 @@ func accessFamily(a *Args) error {
 		return firstErr
 	}
 	n, sample := stdPanics.Take()
-	fmt.Printf("access: %d behaviours replayed, %d trace lines, %d handler panics logged %q\n", len(behs), tr.n, n, strings.TrimSpace(sample))
+	_ = sample
+	fmt.Printf("access: %d behaviours replayed, %d trace lines, %d handler panics logged, %d application-side panics\n", len(behs), tr.n, n, atomic.LoadInt64(&appPanics))
 	return tr.Close()
 }
